@@ -29,16 +29,18 @@ RULE = ("one evaluation = one (compu method, value, load path) triple judged by 
         "is not IDENTICAL or the value is within 1 of a limit; distinct = digest of (method, "
         "direction, value)")
 ASSUMPTIONS = [
-    "a Python int is an admissible value of a float-typed internal/physical type (DataType.isinstance); bool, NaN and infinities are never generated",
-    "limit values and table points of float-typed domains denote the double nearest to their text; coefficient texts denote their exact decimal value and the double rounding of coefficients is covered by the tolerance (DESIGN 2.4)",
-    "integer results: any integer n with |n - exact| <= 1/2 + float tolerance is accepted (both neighbours on ties)",
-    "a COMPU-SCALE of a linear/rational method with exactly one limit element can be read as a single point or as a half-bounded interval; values on which the two readings differ are not judged",
-    "overlapping scales: linear and rational methods use the first applicable scale (DESIGN 2.4); overlapping text-table scales and texts naming several scales are not judged",
-    "is_valid_physical_value is judged only where the statement fixes it: images of valid internal values of injective methods, exact preimages outside the declared limits, explicitly declared inverse scales, text tables without default",
-    "for wrongly typed values an OdxError out of is_valid_* counts as 'declared invalid'",
+    "a Python int is an admissible value of a float-typed internal/physical type (DataType.isinstance); a float offered to an integer-typed side is not judged; bool, NaN and infinities are never generated",
+    "limit values and table points of float-typed domains denote the double nearest to their text; coefficient texts denote their exact decimal value and the double rounding of coefficients is covered by the tolerance (DESIGN 2.4: 64 ulp(double) of the condition magnitude + 4 ulp of the target float width)",
+    "integer results: any integer n with |n - exact| <= 1/2 + float tolerance is accepted (both neighbours on ties); the round trip is demanded only up to that set",
+    "a COMPU-SCALE of a linear/rational method with exactly one limit element can be read as a single point or as a half-bounded interval; values on which the two readings differ are not judged and no physical-side clause is evaluated for such methods",
+    "overlapping scales: linear and rational methods use the first applicable scale (DESIGN 2.4); overlapping text-table scales and texts naming several scales are not judged (E16)",
+    "is_valid_physical_value is judged only where the statement fixes it: images of valid internal values of injective methods, exact preimages outside the declared limits (limits honour OPEN/CLOSED), explicitly declared inverse scales of rational methods, text tables without default, images under monotone continuous SCALE-LINEAR methods",
+    "text tables: with a default text every internal value converts, whether it is then 'declared valid' is not judged; wrongly typed values are not judged for text tables; elsewhere an OdxError out of is_valid_* for a wrongly typed value counts as 'declared invalid'",
+    "a declared inverse rational scale whose denominator has a root inside its limits is outside the envelope (generator avoids it, a pole met anyway is not judged)",
     "negative images of an A_UINT32 physical type are outside the envelope (not judged for validity)",
+    "zero-slope scales carry a COMPU-INVERSE-VALUE (ODX rule); the physical validity of constants is judged only through 'a monotone continuous method can always encode'",
     "COMPUCODE is never valid (E15): only checked for declaring nothing valid",
-    "byte-field ordering of compare_odx_values is not asserted",
+    "byte-field ordering of compare_odx_values is not asserted; compare/limit checks use numbers up to 2^32 and short strings",
 ]
 MUST_HIT = ["cat:IDENTICAL", "cat:LINEAR", "cat:SCALE-LINEAR", "cat:TEXTTABLE", "cat:TAB-INTP",
             "cat:RAT-FUNC", "cat:SCALE-RAT-FUNC", "path:direct", "path:xml", "domain:8bit-exhaustive",
@@ -46,7 +48,8 @@ MUST_HIT = ["cat:IDENTICAL", "cat:LINEAR", "cat:SCALE-LINEAR", "cat:TEXTTABLE", 
             "roundtrip", "tie", "it:int", "it:float", "pt:int", "pt:float", "valid-internal:false",
             "valid-internal:true", "valid-physical:true", "valid-physical:false", "clause:mc-encode",
             "texttable:default-i2p", "texttable:default-p2i", "ratfunc:with-inverse", "tabintp:int-result",
-            "dop:decode", "dop:encode", "wrong-type", "compare"]
+            "dop:decode", "dop:encode", "wrong-type", "compare", "ratfunc:roundtrip", "texttable:roundtrip",
+            "tabintp:descending", "tabintp:flat", "one-sided-scale"]
 
 
 # ---------------------------------------------------------------------------
@@ -459,6 +462,10 @@ class Judge:
     def judge_roundtrip(self, cm, path, v, p):
         ref = self.ru
         self.classes.add("roundtrip")
+        if self.cat in ("RAT-FUNC", "SCALE-RAT-FUNC"):
+            self.classes.add("ratfunc:roundtrip")
+        elif self.cat == "TEXTTABLE":
+            self.classes.add("texttable:roundtrip")
         if self.pt == "A_UINT32" and refcompu.is_num(p) and p < 0:
             self.classes.add("uint-negative-image")
             return
